@@ -7,6 +7,7 @@ import Bridge.LayerAbs
 import PtaProofs.Lemmas.Render
 import PtaProofs.Lemmas.RenameAux
 import PtaProofs.Lemmas.SemHier
+import PtaProofs.Lemmas.LayerConsistent
 namespace Pta
 open PtaSpec
 
@@ -157,6 +158,22 @@ theorem layerOf_correct (m : Layers) (hU : UnrelMap m) (hm : ∀ l ∈ m, ∀ x 
     LayerMap.layerOf (m.map fun l => (l.1, l.2.map render)) (render n) = .ok (layerTag m n) := by
   rw [Ren.layerOf_enc render render_injective m hm n hn (fun c hc => isStrictSub_render c n hc hn)]
   exact layerOfC_correct m hU n
+
+/-- on a mapping that lists rendered, pairwise unrelated modules the check of the repaired `_update_layer_mapping`
+    passes: listed modules are in particular pairwise distinct, unless they sit in layers of the same name -/
+theorem consistent_of_unrelMap (m : Layers) (hU : UnrelMap m) (hm : ∀ l ∈ m, ∀ x ∈ l.2, nameWF x = true) :
+    LayerMap.consistent (m.map fun l => (l.1, l.2.map render)) = true := by
+  rw [consistent_iff]
+  intro l1 h1 l2 h2 id i1 i2
+  obtain ⟨k1, hk1, rfl⟩ := List.mem_map.1 h1
+  obtain ⟨k2, hk2, rfl⟩ := List.mem_map.1 h2
+  simp only [List.mem_map] at i1 i2
+  obtain ⟨x, hx, rfl⟩ := i1
+  obtain ⟨y, hy, hxy⟩ := i2
+  have e : y = x := render_injective y x (hm k2 hk2 y hy) (hm k1 hk1 x hx) hxy
+  subst e
+  have hrel : related y y = true := by simp [related, desc]
+  exact (hU k1 hk1 k2 hk2 y hx y hy hrel).2
 
 /-! ### from the Bool-valued domain predicate to `UnrelMap` -/
 
